@@ -284,7 +284,7 @@ pub fn run(ctx: &mut Ctx) {
 
     // ---- random Interrupted sequences on reads ----
     let refs: Vec<Vec<Beatmap>> = files.iter().map(|(_, encs)| encs.iter().map(|b| rosu_map::from_bytes::<Beatmap>(b).unwrap()).collect()).collect();
-    let cases = ctx.tier.pick(6_000u64, 60_000u64);
+    let cases = ctx.tier.pick(60_000u64, 600_000u64);
     ctx.pbt("c09-interrupted", cases, 64, |t, st| {
         // small files mostly
         let small: Vec<usize> = (0..files.len()).filter(|i| bundled()[*i].bytes.len() <= 8192).collect();
